@@ -314,6 +314,12 @@ func (s *solo) onReturn(m *rpcbench.WireMsg, t int64) {
 			s.count("result_caps_released_by_early_finish", int64(len(m.Payload.Caps)))
 		} else {
 			s.connSentDescs(m.Payload.Caps, s.expectedResultSrcs(q, m), fmt.Sprintf("results of answer %d uid=%x", q.id, q.uid))
+			q.retGen = map[uint32]int{}
+			for id := range countDescs(m.Payload.Caps) {
+				if ce := s.cexp[id]; ce != nil {
+					q.retGen[id] = ce.gen
+				}
+			}
 		}
 	}
 	s.checkPeerQ(q)
@@ -405,7 +411,22 @@ func (s *solo) onFinish(m *rpcbench.WireMsg, t int64) {
 	s.count("finishes_checked", 1)
 	if !a.returned {
 		// Finish before Return = cancellation; only the application can ask for it
-		if a.app == nil || !a.app.canceled {
+		legit := a.app != nil && a.app.canceled
+		if a.boot {
+			// dropping every reference to the bootstrap client cancels the
+			// bootstrap question
+			legit = true
+			for _, b := range s.appBoots {
+				if b.pa == a || (b.copyOf != nil && b.copyOf.pa == a) {
+					for _, h := range s.w.LiveHandles() {
+						if h == b.h {
+							legit = false
+						}
+					}
+				}
+			}
+		}
+		if !legit {
 			s.violate("C06/finish-before-return", fmt.Sprintf("Conn finished question %d that has not returned and was not canceled", m.ID), s.log.Tail(30))
 		}
 		s.count("finish_before_return", 1)
@@ -499,7 +520,7 @@ func (s *solo) onDisembargo(m *rpcbench.WireMsg, t int64) {
 		// all pipelined calls sent before the Disembargo must have looped back already
 		for _, q := range s.pqAll {
 			if q.pipeOn == emb.q && pathStr(q.target.PathOps()) == pathStr(emb.path) && q.sentT < emb.sentT && !q.mustFail {
-				if !q.fwdArrived {
+				if !q.fwdArrived && !(q.ret != nil && q.ret.RetKind != "results") {
 					s.violate("C06/order/embargo", fmt.Sprintf("Disembargo reply overtook the looped-back pipelined call uid=%x", q.uid), s.log.Tail(40))
 				}
 			}
